@@ -1,4 +1,5 @@
 import StoneVerif.Lemmas.RtCompatFwd4
+import StoneVerif.Lemmas.RtCompatBwd6
 /-!
 Property theorems for C07: backwards-compatible changes (docs/evolve_spec.rst) keep peers interoperable.
 
@@ -63,6 +64,34 @@ theorem strict_accepts_known_partial (E : Ext) {ρ : Rho} {A B : Env} {tA tB : P
     decode E A [] true tA j = .ok (view ρ A tA w) := by
   obtain ⟨cx, hty⟩ := ctx_of hs hA hB hxA huB
   exact decode_sub E cx j tA tB true sB w hty hw (fun _ => hk) h
+
+/-- BACKWARD COMPATIBILITY, message form (full generality: every type, every nesting, every combination of modes).
+A document in the form the older spec's encoder writes (`tightDoc`: nothing the older spec does not know, Void tags bare)
+that the older spec's decoder accepts, and that uses no tag that is Void in A and non-nullable in B (`nvrDoc`: the
+direction the guide does not promise), is accepted by the newer spec's decoder — strict or lenient — as the same value
+seen under the newer spec: same slots, the new fields unset (reading them gives `None` / the declared default through
+`attrGet`). -/
+theorem backward_compat_msg (E : Ext) {ρ : Rho} {A B : Env} {tA tB : PTy} (hs : subB ρ A B tA tB = true)
+    (hA : envWF A = true) (hB : envWF B = true) (hxA : envWFX A = true) (huB : envWFU B = true)
+    (hw : tyWF A tA = true) (j : JVal) (sA sB : Bool) (w : PyVal)
+    (ht : tightDoc A tA j = true) (hn : nvrDoc ρ A B tA j = true)
+    (h : decode E A [] sA tA j = .ok w) :
+    decode E B [] sB tB j = .ok (lift ρ B tB w) := by
+  obtain ⟨cx, hty⟩ := ctx_of hs hA hB hxA huB
+  exact decode_lift E cx j tA tB sA sB w hty hw ht hn h
+
+/-- BACKWARD COMPATIBILITY, wire form.  `hrt`: the older spec reads its own message back (C04 / C05 for A); `ht`, `hn`:
+the message is in encoder form and uses no Void-to-required tag — both decidable, evaluated by the driver on the real
+encoding of every case (`compat.tight`, `compat.nvrdoc`).  Full statement of DESIGN.md (from `validB E A tA v` and
+`noVoidToRequired ρ A B tA v`, conclusion up to `pyEq`) = this theorem + A's round trip (C04) + `tightDoc (wire v)` and
+`nvrDoc (wire v) = noVoidToRequired v` for valid `v` (an induction over `wire`, not done): hence `_partial`. -/
+theorem backward_compat_partial (E : Ext) {ρ : Rho} {A B : Env} {tA tB : PTy} (hs : subB ρ A B tA tB = true)
+    (hA : envWF A = true) (hB : envWF B = true) (hxA : envWFX A = true) (huB : envWFU B = true)
+    (hw : tyWF A tA = true) (v w : PyVal) (sA strict : Bool)
+    (hrt : decode E A [] sA tA (wire E A tA v) = .ok w)
+    (ht : tightDoc A tA (wire E A tA v) = true) (hn : nvrDoc ρ A B tA (wire E A tA v) = true) :
+    decode E B [] strict tB (wire E A tA v) = .ok (lift ρ B tB w) :=
+  backward_compat_msg E hs hA hB hxA huB hw _ sA strict w ht hn hrt
 
 /-- the A-view of `None` is `None` at every type -/
 theorem view_none (ρ : Rho) (A : Env) (t : PTy) : view ρ A t .none = .none :=
